@@ -34,8 +34,13 @@ func init() {
 			// pixel vs. model units in the rasteriser (Scale = px/L, LineWidth = px)
 			c.runUnits("UNIT", c.libPkgs()[1:2], c.fileFilter("model2d/rasterize.go"))
 			c.floor("UNIT", 2)
+			// the dual-contouring slab buffer: absolute z values, window-relative rows
+			c.runWindowIndex("WINDOWIDX", append(c.libPkgs()[:1:1], c.fixturePkg("w")))
+			c.floor("WINDOWIDX", 1)
 		},
 		SelfTest: []Mutation{
+			{Name: "refilled corners read the z values of the first slab", File: "model3d/dc.go",
+				Old: "\t\t\t\td.Zs[z+d.ZOffset],", New: "\t\t\t\td.Zs[z],", Rule: "WINDOWIDX", Expect: "Shift"},
 			{Name: "dual contouring workers append to the shared interior list", File: "model3d/dc.go",
 				Old: "localInterior = append(localInterior, edge.Coord)", New: "*interior = append(*interior, edge.Coord)", Rule: "W", Expect: "populateEdges"},
 			{Name: "a base case listed twice in two orientations", File: "model3d/mc.go",
